@@ -101,6 +101,13 @@ MATCH_RULE = ("(pattern, message, bindings) triples built from a planted witness
               "fragment.  One PRNG (VERIF_SEED).  A case is non-trivial if it binds a variable or recurses into an array or map; "
               "distinct = distinct canonical (pattern, message, bindings) text.")
 
+ENGINE_RULE = ("random spec graphs (<=5 nodes + optional explicit error node, <=4 ordered branches per node, patterns from a "
+               "message/bindings vocabulary incl. property, optional, inequality and array variables, guards and actions from the "
+               "shared action DSL rendered as ECMAScript source or as a native Go closure, @var targets, unknown targets, every "
+               "combination of error settings), start states incl. nil bindings, permanent bindings and unknown nodes, 0-5 messages, "
+               "limits incl. none/0/negative, breakpoints.  One PRNG (VERIF_SEED).  Non-trivial: more than one stride or an action ran; "
+               "distinct = distinct canonical (spec, state, messages, limit) text.")
+
 PROPS = {
     "C01": {
         "modules": ["Sheens.Props.C01"],
@@ -136,5 +143,87 @@ PROPS = {
         "analyze": analyze_match(["det", "probe"]),
         "rule": MATCH_RULE + "  Every case is evaluated repeatedly by the implementation (Go randomises map iteration) and the "
                 "model is evaluated on every hereditary key-order permutation of the pattern; outcome sets are compared.",
+    },
+    "C04": {
+        "modules": ["Sheens.Props.C04"],
+        "theorems": [],
+        "facts": [],
+        "runs": {
+            "quick": [("step", ["-profile", "step", "-n", "2500"]), ("walk", ["-profile", "walk", "-n", "1500"])],
+            "thorough": [("step", ["-profile", "step", "-n", "40000"]), ("walk", ["-profile", "walk", "-n", "20000"]),
+                         ("step", ["-profile", "failing", "-n", "20000"])],
+        },
+        "analyze": analyze_generic,
+        "oracles": ["rule", "messageConsumes", "errSame", "firstFrom"],
+        "probes": [],
+        "rule": ENGINE_RULE,
+    },
+    "C05": {
+        "modules": ["Sheens.Props.C05"],
+        "theorems": [],
+        "facts": [],
+        "runs": {
+            "quick": [("walk", ["-profile", "walk", "-n", "3000"]), ("split", ["-profile", "split", "-n", "1200"])],
+            "thorough": [("walk", ["-profile", "walk", "-n", "50000"]), ("split", ["-profile", "split", "-n", "20000"])],
+        },
+        "analyze": analyze_generic,
+        "oracles": ["prefix", "remainder", "bounded", "chain", "firstFrom", "quiescent"],
+        "probes": ["splitEq"],
+        "rule": ENGINE_RULE + "  Split runs: the whole batch in one Walk versus every generated split into consecutive batches.",
+    },
+    "C06": {
+        "modules": ["Sheens.Props.C06"],
+        "theorems": [],
+        "facts": [],
+        "runs": {
+            "quick": [("walk", ["-profile", "failing", "-n", "2500"]), ("step", ["-profile", "failing", "-n", "2000"])],
+            "thorough": [("walk", ["-profile", "failing", "-n", "40000"]), ("step", ["-profile", "failing", "-n", "40000"]),
+                         ("walk", ["-profile", "walk", "-n", "20000"])],
+        },
+        "analyze": analyze_generic,
+        "oracles": [],
+        "probes": ["untouched", "fresh", "repeatable"],
+        "rule": ENGINE_RULE + "  Probes: deep snapshots of state, messages, spec (patterns, targets, settings), control and props before/after; pointer identity of every returned bindings map against the given one; two identical calls compared.",
+    },
+    "C07": {
+        "modules": ["Sheens.Props.C07"],
+        "theorems": [],
+        "facts": [],
+        "runs": {
+            "quick": [("walk", ["-profile", "failing", "-n", "2500"]), ("step", ["-profile", "timeouts", "-n", "400"]),
+                      ("match", ["-profile", "c03", "-n", "1500", "-reps", "2"])],
+            "thorough": [("walk", ["-profile", "failing", "-n", "40000"]), ("step", ["-profile", "timeouts", "-n", "3000"]),
+                         ("step", ["-profile", "failing", "-n", "40000"]), ("match", ["-profile", "c03", "-n", "30000", "-reps", "2"])],
+        },
+        "analyze": analyze_generic,
+        "oracles": ["total", "errorSurfaced"],
+        "probes": [],
+        "rule": ENGINE_RULE,
+    },
+    "C08": {
+        "modules": ["Sheens.Props.C08"],
+        "theorems": [],
+        "facts": [],
+        "runs": {
+            "quick": [("walk", ["-profile", "failing", "-n", "2500"]), ("step", ["-profile", "failing", "-n", "1500"])],
+            "thorough": [("walk", ["-profile", "failing", "-n", "50000"]), ("step", ["-profile", "failing", "-n", "30000"])],
+        },
+        "analyze": analyze_generic,
+        "oracles": ["emitExact"],
+        "probes": [],
+        "rule": ENGINE_RULE,
+    },
+    "C18": {
+        "modules": ["Sheens.Props.C18"],
+        "theorems": [],
+        "facts": [],
+        "runs": {
+            "quick": [("walk", ["-profile", "permanent", "-n", "2500"]), ("step", ["-profile", "permanent", "-n", "2000"])],
+            "thorough": [("walk", ["-profile", "permanent", "-n", "50000"]), ("step", ["-profile", "permanent", "-n", "30000"])],
+        },
+        "analyze": analyze_generic,
+        "oracles": ["permanent", "total"],
+        "probes": [],
+        "rule": ENGINE_RULE,
     },
 }
